@@ -115,6 +115,15 @@ void harness(void) {
         VASSUME(n >= 1 && n <= N);
         for (i = 0; i < N; i++) buf[i] = i < n ? alphabet[vin.sel[i] & 31] : 0;
         buf[N] = 0;
+#ifdef DECPREFIX
+        /* boundary literals: a concrete decimal prefix (the leading digits of the type's extreme value) followed by
+         * symbolic characters - reaches the 10/11/19/20-character literals at the edge of each reader's range */
+        {
+            static const char prefix[] = DECPREFIX;
+            VASSUME(n >= (int) sizeof prefix - 1);
+            for (i = 0; i < (int) sizeof prefix - 1; i++) buf[i] = prefix[i];
+        }
+#endif
 #ifdef HEXONLY
         VASSUME(at(0) == '#' && (at(1) == 'H' || at(1) == 'h'));
 #endif
@@ -132,6 +141,9 @@ void harness(void) {
             if (i >= j && i < n) {
                 int c = at(i), d = r_digit(c) ? c - '0' : (c >= 'a' && c <= 'f') ? c - 'a' + 10 : (c >= 'A' && c <= 'F') ? c - 'A' + 10 : 99;
                 VASSUME(d < base);
+#ifdef DECPREFIX
+                VASSUME(mag <= (0xFFFFFFFFFFFFFFFFull - (uint64_t) d) / 10u); /* the literal fits 64 bits */
+#endif
                 mag = mag * (uint64_t) base + (uint64_t) d; /* N <= 16 hex digits: no overflow */
             }
         }
